@@ -52,7 +52,7 @@ def run_e2e(ctx, n, tag):
     failures = []
     tot = {}
     for (name, text, g), (rc, so, se) in zip(jobs, common.pmap(one, jobs)):
-        if rc != 0 or so.strip().endswith("timeout"):
+        if rc != 0 or "timeout" in so.split("\n"):
             continue
         got = {}
         for l in so.split("\n"):
